@@ -15,6 +15,7 @@ Record fobs := {
   o_table : table;     (* Event.Formatted after the call, sorted by format id *)
   o_frame : bool;      (* Type, CreatedAt and the deep snapshot of the payload are what they were before the call *)
   o_decode : N;        (* Go's own decode of the stored json line vs. the expected image: 0 n/a, 1 equal, 2 different *)
+  o_pred_err : bool;   (* the predicate was invoked during the call and returned an error *)
   o_final : option bytes;  (* Format("json") of the same event re-read later: after every later Process call of the batch (other
                               events, same goroutine) and after a closing round of Process calls from this and other goroutines *)
   o_later : N;         (* number of later Process calls (on other events) after which the stored value was first seen changed;
@@ -37,6 +38,9 @@ Inductive kind :=
 | KParse                 (* observation-only: parsing the stored line does not give exactly created_at, event_type, payload
                             with the time, the type and the JSON image of the payload *)
 | KDecode                (* observation-only: Go's own decoder disagrees with the expected image *)
+| KErrStored             (* observation-only: Process returned an error that is not the predicate's, yet the event's format
+                            table is not exactly what it was before the call (a failed event must not carry a new line: the
+                            same *Event is seen by other pipelines and by whoever kept it) *)
 | KStoredMutated         (* observation-only: the value stored under json changed after Process had returned (it must stay the
                             line that was stored, whatever is formatted afterwards); the step of the mismatch is the number of
                             later Process calls it took *)
@@ -104,6 +108,10 @@ Definition run_proc (c : pcase) : list kind :=
      | Some _, Some _, None => [KParse]          (* success reported but nothing is stored under json *)
      | _, _, _ => []
      end
+   else []) ++
+  (* observation-only: an error other than the predicate's leaves the format table exactly as it was; Filter never writes *)
+  (if (o_err o && negb (o_pred_err o)) || negb writes then
+     (if table_eqb (c_pre c) (o_table o) then [] else [KErrStored])
    else []) ++
   (* observation-only: the stored value is still the same when re-read after later Process calls on other events; if it is
      not, the property's oracle is run again on what is there now *)
